@@ -2387,11 +2387,23 @@ def rule_lambda_names(repo):
             n = parent(n)
         return n
     end = f.body.index(top(fcall))
-    firsts = [i for i, st in enumerate(f.body[:end]) if any(isinstance(x, ast.Name) and x.id == nv and isinstance(x.ctx, ast.Store)
-                                                             for x in ast.walk(st))]
-    if not firsts:
+    # backward slice of the name over the function's top-level statements: every statement that defines a name the block
+    # name depends on, transitively (sanitiser locals, loop counters, ...), in source order
+    needed, chosen = {nv}, set()
+    changed = True
+    while changed:
+        changed = False
+        for i, st in enumerate(f.body[:end]):
+            if i in chosen or _is_doc(st):
+                continue
+            stores = {x.id for x in ast.walk(st) if isinstance(x, ast.Name) and isinstance(x.ctx, ast.Store)}
+            if stores & needed:
+                chosen.add(i)
+                needed |= {x.id for x in ast.walk(st) if isinstance(x, ast.Name) and isinstance(x.ctx, ast.Load)}
+                changed = True
+    if not chosen:
         raise AnalysisError(f"{fq}: the block name is not assigned before the block is built")
-    frag = f.body[firsts[0]:end]
+    frag = [f.body[i] for i in sorted(chosen)]
     # the generated block is registered under its name before the next `//=` runs
     regs = [c for c in walk_no_nested(f) if isinstance(c, ast.Call) and isinstance(c.func, ast.Attribute) and c.func.attr == '_update']
     cons = 'the generated block is registered (ComponentLevel1._update) in the same call'
@@ -2622,6 +2634,10 @@ EQUIV = [
         dict(file=L3, old="import linecache\n", new="import linecache\nimport itertools\n", count=1),
         dict(file=L3, old="    base_name, nth = blk_name, 1\n    while blk_name in s._dsl.name_upblk:\n      nth += 1\n      blk_name = f\"{base_name}__{nth}\"\n",
              new="    base_name = blk_name\n    if blk_name in s._dsl.name_upblk:\n      for nth in itertools.count(2):\n        blk_name = f\"{base_name}__{nth}\"\n        if blk_name not in s._dsl.name_upblk:\n          break\n", count=1)]),
+    dict(name='lambda-name-sanitiser-as-loop (RF38/4)', edits=[
+        dict(file=L3, old="    blk_name = \"_lambda__{}\".format( repr(o).replace(\".\",\"_\").replace(\"[\", \"_\").replace(\"]\", \"_\").replace(\":\", \"_\") )\n",
+             new="    target_name = repr(o)\n    for ch in ( \".\", \"[\", \"]\", \":\" ):\n      target_name = target_name.replace( ch, \"_\" )\n\n    blk_name = \"_lambda__{}\".format( target_name )\n", count=1),
+        dict(file=L3, old="    base_name, nth = blk_name, 1\n", new="    base_name = blk_name\n    nth       = 1\n", count=1)]),
     _m('lambda-name-membership-keys', L3, "    while blk_name in s._dsl.name_upblk:", "    while blk_name in s._dsl.name_upblk.keys():"),
     _m('lambda-name-fstring', L3, "blk_name = \"_lambda__{}\".format( repr(o)", "blk_name = \"_lambda__\" + \"{}\".format( repr(o)"),
     _m('loop-test-ne-for-identity', L3, "            elif v is not pred[u]:", "            elif v != pred[u]:"),
